@@ -409,13 +409,39 @@ class Scenario(object):
                     pairs = many_keys_rule(rng, rng.choice([15, 16, 17, 20]))
                 text = render(rng, pairs)
                 self.op_add(c, text, "valid")
+            elif r < 0.26 and self.rules[c.unique]:
+                # a twin of a held rule: same keys and values except for the KIND of one key (argN <-> argNpath <->
+                # arg0namespace, path <-> path_namespace); RemoveMatch must tell them apart
+                rule, text = rng.choice(self.rules[c.unique])
+                pairs = list(rule.d.items())
+                cands = [i for i, (k, v) in enumerate(pairs)
+                         if k in (b"path", b"path_namespace") or (k.startswith(b"arg") and k != b"arg0namespace") or k == b"arg0namespace"]
+                if cands:
+                    i = rng.choice(cands)
+                    k, v = pairs[i]
+                    if k == b"path":
+                        nk = b"path_namespace"
+                    elif k == b"path_namespace":
+                        nk = b"path"
+                    elif k == b"arg0namespace":
+                        nk = rng.choice([b"arg0", b"arg0path"])
+                    elif k.endswith(b"path"):
+                        nk = k[:-4]
+                    else:
+                        nk = k + b"path"
+                        if k == b"arg0" and rng.random() < 0.5:
+                            nk = b"arg0namespace"
+                    pairs[i] = (nk, v)
+                    rng.shuffle(pairs)
+                    self.part.count("twin-rules-added")
+                self.op_add(c, render(rng, pairs), "twin")
             elif r < 0.30:
                 base = render(rng, gen_rule_pairs(rng, self.clients))
                 self.op_add(c, mutate_invalid(rng, base, self.clients), "mutated")
             elif r < 0.38:
                 held = self.rules[c.unique]
                 if held and rng.random() < 0.7:
-                    rule, text = rng.choice(held)
+                    rule, text = held[0] if rng.random() < 0.4 else rng.choice(held)
                     pairs = list(rule.d.items())
                     rng.shuffle(pairs)
                     self.op_remove(c, render(rng, pairs), True)
